@@ -580,3 +580,10 @@ def r7(ctx):
 def r8(ctx):
     from . import c19
     c19.r5(ctx)
+
+
+@rule("C10.R9", "a request whose answer cannot be sent within what the client accepts is answered with the matching abort (the capability decision of the server transaction; never segments to a client that takes none)",
+      floor=20, engines="E5 decision tables (shared with C12.R2)")
+def r9(ctx):
+    from .c12 import r2 as capability_tables
+    capability_tables(ctx)
